@@ -296,3 +296,74 @@ def nfa_accepts(mstates, edges, accepting, start, word, amap):
         if not cur:
             return False
     return bool(cur & accepting)
+
+
+# ---------------------------------------------------------------- samples ----
+WS_POOL = [' ', '\n', '\t', '\r\n', '  ', ' \n ', '\n\t', '\r', '\x0b', ' ', ' ']
+
+
+def samples(pattern, rng, n=20):
+    """random strings built along the sre parse tree of `pattern` (look-around ignored, so a sample need not
+    match): every `\\s` position draws from a pool of whitespace realisations, every branch / optional part /
+    repetition count is chosen at random.  Used to feed the lexer inputs shaped by its own rules."""
+    tree = sre_parse.parse(pattern, FLAGS)
+    out = set()
+
+    def item_char(it):
+        if it[0] == 'lit':
+            c = chr(it[1])
+            return rng.choice([c, c.upper(), c.lower()])
+        if it[0] == 'range':
+            return chr(rng.randint(it[1], min(it[2], it[1] + 40)))
+        name = str(it[1])
+        if 'NOT_' in name:
+            return rng.choice(['x', '1', ' ', ';', "'"])
+        if 'DIGIT' in name:
+            return rng.choice('0179')
+        if 'SPACE' in name:
+            return rng.choice(WS_POOL)
+        return rng.choice(['a', 'Z', '9', '_', 'é'])
+
+    def gen(items, groups):
+        res = []
+        for op, av in items:
+            at = _atom_of(op, av)
+            if at is not None:
+                if at.kind == 'any':
+                    res.append(rng.choice(['x', ' ', ';', "'", '*', '-']))
+                elif at.kind == 'lit':
+                    c = chr(at.arg)
+                    res.append(rng.choice([c, c.upper(), c.lower()]))
+                elif at.kind == 'notlit':
+                    res.append(rng.choice([c for c in ['x', ' ', ';', '\n', '1'] if ord(c) != at.arg]))
+                else:
+                    neg, its = at.arg
+                    if neg:
+                        cand = [c for c in ['x', ' ', ';', '\n', '1', '"', "'", '*', '/', '-'] if at.test(ord(c))]
+                        res.append(rng.choice(cand) if cand else 'x')
+                    else:
+                        res.append(item_char(rng.choice(its)))
+            elif op is sre_c.BRANCH:
+                res.append(gen(rng.choice(av[1]), groups))
+            elif op is sre_c.SUBPATTERN:
+                g, _, _, p = av
+                s = gen(p, groups)
+                if g is not None:
+                    groups[g] = s
+                res.append(s)
+            elif op in (sre_c.MAX_REPEAT, sre_c.MIN_REPEAT):
+                lo, hi, p = av
+                k = rng.randint(lo, min(hi, lo + 3))
+                res.append(''.join(gen(p, groups) for _ in range(k)))
+            elif op in (sre_c.ASSERT, sre_c.ASSERT_NOT, sre_c.AT):
+                pass
+            elif op is sre_c.GROUPREF:
+                res.append(groups.get(av, ''))
+            else:
+                raise ValueError('unsupported regex node %s' % (op,))
+        return ''.join(res)
+    for _ in range(n * 3):
+        out.add(gen(tree, {}))
+        if len(out) >= n:
+            break
+    return sorted(out)
